@@ -38,11 +38,11 @@ def gen_cases(ctx):
                             "pvars": rng.random() < 0.6, "rev": rng.random() < 0.35,
                             "proto": rng.choice(["out.nc", "out.nc", "run_04.nc", "a_b_007.nc", "x_99.nc", "ladim_2020_000.nc", "run10_010.nc", "r__1.nc", "t_0_00.nc",
                                                  "out.v2.nc", "run.2000-01_07.nc", "a.b.c_1.nc"]),
-                            "rem": rng.choice([0, 0, 0, 250])})
+                            "rem": rng.choice([0, 0, 0, 250]), "ref": rng.choice([None, None, -946684800, 10**9])})
     for N, p, numrec in ([(5, 2, 0), (5, 2, 2), (7, 3, 2), (6, 2, 3), (4, 1, 4), (1, 3, 1)] if ctx.quick else
                          [(rng.randint(1, 20), rng.randint(1, 6), rng.randint(0, 4)) for _ in range(40)]):
         out.append({"k": "main", "N": N, "p": p, "numrec": numrec, "layout": rng.choice(["sparse", "dense"]),
-                    "pvars": True, "rev": rng.random() < 0.4, "proto": "o.nc", "rem": 0})
+                    "pvars": True, "rev": rng.random() < 0.4, "proto": "o.nc", "rem": 0, "ref": rng.choice([None, -946684800])})
     return out
 
 
@@ -94,7 +94,11 @@ def eval_case(desc, ctx):
         from ladim.state import State
         from ladim.timekeeper import TimeKeeper
 
-        tk = TimeKeeper(start=rf.iso(tstart), stop=rf.iso(tstop), dt=DT, time_reversal=rev)
+        # reference time of the output: the default (the start), or far before / after the run (time values of the
+        # order 1e9 s, period of the order 1e3 s)
+        refopt = desc.get("ref")
+        tk = TimeKeeper(start=rf.iso(tstart), stop=rf.iso(tstop), dt=DT, time_reversal=rev,
+                        reference=None if refopt is None else rf.iso(refopt))
         st = State(particle_variables={"weight": float} if desc["pvars"] else None)
         st.append(X=np.array([1.0, 2.0]), Y=2.0, Z=3.0, **({"weight": np.array([5.0, 6.0])} if desc["pvars"] else {}))
         ivars = {v: {"encoding": {"datatype": "f8"}, "attributes": {}} for v in ("X", "Y")}
@@ -119,7 +123,7 @@ def eval_case(desc, ctx):
         rf.write_release(d / "r.rls", [[tstart, 3.0, 3.0, 5.0, 2.5]])
         conf = rf.base_config(start=tstart, stop=tstop, dt=DT, forcing_file=d / "f.nc", release_file=d / "r.rls",
                               out_file=d / desc["proto"], output_period=p * DT, numrec=numrec, layout=desc["layout"],
-                              time_reversal=rev, names=["release_time", "X", "Y", "Z", "weight"])
+                              time_reversal=rev, names=["release_time", "X", "Y", "Z", "weight"], reference=desc.get("ref"))
         conf["state"] = {"particle_variables": {"weight": "float"}}
         conf["output"]["particle_variables"] = {"weight": {"encoding": {"datatype": "f8"}, "attributes": {}}}
         try:
